@@ -27,6 +27,8 @@ import LarkVerif.Recons
 import LarkVerif.ForestVisit
 import LarkVerif.TableSer
 import LarkVerif.LR0
+import LarkVerif.ForestCert
+import LarkVerif.Prune
 import Std.Data.HashMap
 /-! Line-protocol driver: one JSON request per stdin line (`{"op": ...}`), one JSON answer per stdout line.
     Runs the *executable definitions the theorems are about*.  Not part of the proof library. -/
@@ -612,6 +614,46 @@ def handle (j : Json) : Except String Json := do
   | "lr_feed" => runLrFeed j
   | "rule_size" => runRuleSize j
   | "choose" => runChoose j
+  | "prune_check" =>
+    -- {"rules": [...all rules before pruning...], "keep": [bool...], "roots": [nt...]}: is the kept set closed from the roots (PruneProto.closedB)?
+    let rules ← (← getArr j "rules").mapM ruleOf
+    let keepL ← (← getArr j "keep").mapM boolOf
+    let roots ← natListOf (← j.getObjVal? "roots")
+    let kept : List EarleyProto.Rule := (rules.zip keepL).filterMap fun (r, k) => if k then some r else none
+    let keep : EarleyProto.Rule → Bool := fun r => kept.contains r
+    pure (Json.mkObj [("closed", Json.bool (PruneProto.closedB ⟨rules⟩ keep roots)), ("kept", natJ (PruneProto.pruned ⟨rules⟩ keep).rules.length)])
+  | "forest_cert" =>
+    -- {"rules", "n", "edges", "igns", "nodes": [[kind, a, b, s, e]...] (kind 0: sym a; kind 1: lr0 rule a dot b), "fams": [[[rule, left|null, right|null]...]...]
+    --  right = [0, node] | [1, term, p, q]}: ForestCert.checkForest on the exported SPPF
+    let rules ← (← getArr j "rules").mapM ruleOf
+    let n ← getNat j "n"
+    let edges ← (← getArr j "edges").mapM tripleOf
+    let igns ← (← getArr j "igns").mapM spanOf
+    let ruleAt (i : Nat) : EarleyProto.Rule := rules.getD i ⟨0, []⟩
+    let nodes ← (← getArr j "nodes").mapM fun e => do
+      match (← natListOf e) with
+      | [0, a, _, s, t] => pure (⟨ForestCert.Lbl.sym a, s, t⟩ : ForestCert.FNode)
+      | [1, a, b, s, t] => pure (⟨ForestCert.Lbl.lr0 (ruleAt a) b, s, t⟩ : ForestCert.FNode)
+      | _ => throw "node"
+    let fams ← (← getArr j "fams").mapM fun fs => do
+      (← fs.getArr?).toList.mapM fun f => do
+        match (← f.getArr?).toList with
+        | [r, l, rt] =>
+          let left : Option Nat ← match l with | Json.null => pure none | x => do pure (some (← x.getNat?))
+          let right : Option ForestCert.Child ← match rt with
+            | Json.null => pure none
+            | x => do
+              match (← natListOf x) with
+              | [0, m] => pure (some (ForestCert.Child.node m))
+              | [1, a, p, q] => pure (some (ForestCert.Child.tok a p q))
+              | _ => throw "right child"
+          pure (⟨ruleAt (← r.getNat?), left, right⟩ : ForestCert.Fam)
+        | _ => throw "family"
+    let G : EarleyProto.Grammar := ⟨rules⟩
+    let L : EarleyProto.FLattice := ⟨n, edges, igns⟩
+    let F : ForestCert.Forest := ⟨nodes, fams⟩
+    let bad := (List.range fams.length).flatMap fun k => ((F.famsOf k).zipIdx.filter fun (f, _) => !ForestCert.famOk G L F (n + 1) k f).map fun (_, i) => natArr [k, i]
+    pure (Json.mkObj [("ok", Json.bool (ForestCert.checkForest G L F (n + 1))), ("bad", Json.arr bad.toArray)])
   | "lr0_check" =>
     -- {"rules", "items": [[[rule, dot]...]...], "kernels": [[[rule, dot]...]...], "trans": [[p, [k, n], q]...]}: lark's LR(0) automaton against LR0.closure / gotoKernel
     let rules ← (← getArr j "rules").mapM ruleOf
